@@ -1169,6 +1169,34 @@ func (g *Gen) scenarios() []intent {
 			return []SymStep{st, cbOK, st, cbErr}
 		})
 	}
+	if c.has("auth") && c.Totp {
+		// the code that just completed a login is presented again at once from another browser, as it is
+		// and as a person might paste it (surrounding white space)
+		add(boost(2, "twofactor", "onetime"), func() []SymStep {
+			var u string
+			for _, n := range g.names {
+				if a, ok := g.r.acc[n]; ok {
+					if usr, ok := g.r.w.st.users[a.PID]; ok && usr.TOTPSecretKey != "" && !(c.Sms && c.SmsFirst && usr.SMSPhoneNumber != "") {
+						u = n
+					}
+				}
+			}
+			if u == "" {
+				return nil
+			}
+			b1, b2 := g.browser(), g.browser()
+			code := Desc{K: "totp", U: u}
+			again := code
+			switch g.rng.Intn(3) {
+			case 0:
+				again = Desc{K: "mut", D: &code, Op: "space"}
+			case 1:
+				again = Desc{K: "mut", D: &code, Op: "lead"}
+			}
+			return []SymStep{g.loginStep(b1, u, Desc{K: "pw", U: u}, false), g.req(b1, "POST", "TotpValidate", []KV{{"code", code}}),
+				g.loginStep(b2, u, Desc{K: "pw", U: u}, false), g.req(b2, "POST", "TotpValidate", []KV{{"code", again}})}
+		})
+	}
 	if c.EmailAuth && (c.Totp || c.Sms) {
 		// the e-mail authorisation of an enrolment: a wrong link first (refused, the right one still works),
 		// then one enrolment - which spends the authorisation - and a second attempt without a new e-mail
